@@ -827,7 +827,8 @@ CONFIG['C12'] = {'assumptions': ['a request has either a body parameter or form 
  'quick_n': 6000,
  'race_n': 400,
  'race_thorough_factor': 10,
- 'rule': 'stream D: the real drainingReadCloser (through client.KeepAliveTransport) over a scripted underlying body: data (0-24 bytes, 1 in 10 '
+ 'rule': 'upload sources fail with a private error or (every third failing one) with io.ErrUnexpectedEOF itself, which the sniffing read takes for a short file; every other upload file reports a failure of its Close. '
+         'stream D: the real drainingReadCloser (through client.KeepAliveTransport) over a scripted underlying body: data (0-24 bytes, 1 in 10 '
          'beyond the 8192-byte drain buffer) x sticky terminal (EOF / error) x schedule of per-call behaviours (empty read, at most n bytes, at most '
          'n bytes with the terminal in the same call) x any sequence of Read sizes (including 0) then Close; every script with data <= 2 bytes '
          '(thorough: <= 6), <= 2 behaviours from {z,t1,l1,l2,t5} and <= 2 reads from {0,1,2,9} is enumerated on every run. Stream F: one '
